@@ -115,14 +115,27 @@ class NotLinear(Exception):
 
 
 def lin(node):
-    """Exact linear form {var: Fraction, "": const} of a flat pymoca expression."""
+    """Exact linear form {ref: Fraction, "": const} of a flat pymoca expression.  A `ref` is
+    (flat name, subscripts per name part) where the subscripts of a part are a tuple of literal
+    integers or None (no subscript written); `expand_form` turns refs into element names."""
     from pymoca import ast
     if isinstance(node, ast.Symbol):
-        return {node.name: Fraction(1)}
+        return {(node.name, None): Fraction(1)}
     if isinstance(node, ast.ComponentRef):
-        if node.child or any(i is not None for ia in node.indices for i in ia):
+        if node.child:
             raise NotLinear("unflattened reference %s" % node)
-        return {node.name: Fraction(1)}
+        if all(i is None for ia in node.indices for i in ia):
+            return {(node.name, None): Fraction(1)}
+        per = []
+        for ia in node.indices:
+            if all(i is None for i in ia):
+                per.append(None)
+                continue
+            vals = [getattr(i, "value", None) for i in ia]
+            if any(isinstance(v, bool) or not isinstance(v, int) for v in vals):
+                raise NotLinear("non-literal subscript in %s" % node)
+            per.append(tuple(vals))
+        return {(node.name, tuple(per)): Fraction(1)}
     if isinstance(node, ast.Primary):
         if isinstance(node.value, bool) or not isinstance(node.value, (int, float)):
             raise NotLinear("primary %r" % (node.value,))
@@ -144,6 +157,86 @@ def lin(node):
         if node.operator == "/" and len(ops) == 2 and set(ops[1]) == {""}:
             return add({}, ops[0], 1 / ops[1][""])
     raise NotLinear("unsupported node %s" % type(node).__name__)
+
+
+def symbol_shape(sym):
+    """Dimensions of a flat symbol per name part: `R r[2,3]` with connector `p`, variable `v` gives
+    the flat symbol `r.p.v` the shape [(2, 3), (), ()]."""
+    parts = sym.name.split(SEP)
+    shape = []
+    for da in sym.dimensions:
+        vals = [getattr(d, "value", d) for d in da]
+        if all(v is None for v in vals):
+            shape.append(())
+        elif all(isinstance(v, int) and not isinstance(v, bool) and v >= 0 for v in vals):
+            shape.append(tuple(vals))
+        else:
+            raise NotLinear("dimension of %s is not a literal" % sym.name)
+    if len(shape) > len(parts):
+        raise NotLinear("more dimension groups than name parts in %s" % sym.name)
+    # dimension groups are aligned with the leading name parts
+    return shape + [()] * (len(parts) - len(shape))
+
+
+def element_names(name, shape):
+    """Names of all elements of a flat symbol, row-major: r[1,1].p.v, r[1,2].p.v, ..."""
+    parts = name.split(SEP)
+    out = [""]
+    for k, part in enumerate(parts):
+        out = [(o + SEP if k else "") + G.elem(part, idx) for o in out for idx in G.index_tuples(shape[k])]
+    return out
+
+
+def expand_form(f, shapes):
+    """Scalar linear forms {element name: Fraction, "": const} of one flat equation: a reference with
+    literal subscripts names one element; references that leave array dimensions unsubscripted make
+    the equation an element-wise one (all such references must leave the same dimensions free;
+    scalars and constants are broadcast)."""
+    free = None
+    plan = []
+    for ref, x in f.items():
+        if ref == "":
+            plan.append((None, None, None, x))
+            continue
+        name, per = ref
+        if name not in shapes:
+            raise NotLinear("reference to unknown flat symbol %s" % name)
+        shape = shapes[name]
+        parts = name.split(SEP)
+        if per is None:
+            per = (None,) * len(parts)
+        if len(per) != len(parts):
+            raise NotLinear("subscript groups do not match the name parts of %s" % name)
+        fr = ()
+        for k, sub in enumerate(per):
+            if sub is None:
+                fr += shape[k]
+            elif len(sub) != len(shape[k]) or any(not 1 <= i <= n for i, n in zip(sub, shape[k])):
+                raise NotLinear("subscripts %r of %s do not fit the dimensions %r" % (sub, name, shape[k]))
+        if fr:
+            if free is not None and free != fr:
+                raise NotLinear("element-wise equation over arrays of different shapes")
+            free = fr
+        plan.append((parts, per, bool(fr), x))
+    out = []
+    for idx in G.index_tuples(free or ()):
+        g = {}
+        for parts, per, is_free, x in plan:
+            if parts is None:
+                g = add(g, {"": x}, 1)
+                continue
+            rest = list(idx)
+            names = []
+            for k, part in enumerate(parts):
+                if per[k] is not None:
+                    sub = per[k]
+                else:
+                    n = len(shapes[SEP.join(parts)][k]) if is_free else 0
+                    sub, rest = tuple(rest[:n]), rest[n:]
+                names.append(G.elem(part, sub))
+            g = add(g, {SEP.join(names): x}, 1)
+        out.append(g)
+    return out
 
 
 def add(a, b, k):
@@ -237,6 +330,11 @@ def reference(case, inst):
                 eqs.append(("flow-sum", f, "set %s variable %s" % (sorted(cl), vn)))
     touched = set(faces.p)
     zero_tags = {}
+    # elements of a connector of an array of components of which other elements are connected (finding C09-F2)
+    partial = set()
+    for (comp, conn), paths in G.array_groups(case).items():
+        if (comp, conn) in G.partial_arrays(case):
+            partial |= set(SEP.join(p) for p in paths)
     for c, t, top in inst.conns:
         if top:
             free = (c, False) not in touched and (c, True) not in touched
@@ -244,6 +342,8 @@ def reference(case, inst):
         else:
             free = (c, True) not in touched
             tag = "unconnected" if (c, False) not in touched else "nested-outside-only"
+            if tag == "unconnected" and c in partial:
+                tag = "unconnected-element-of-partly-connected-array"
         if free:
             for vn, prefixes in cts[t]:
                 if G.var_kind(prefixes) == "flow":
@@ -261,17 +361,22 @@ def run_real(text, top):
             return {"raised": "ParseReturnedNone"}
         flat = tree.flatten(t, ast.ComponentRef.from_string(top))
         cls = flat.classes[top]
-        symbols = list(cls.symbols)
-        flow_syms = [n for n, s in cls.symbols.items() if "flow" in s.prefixes]
+        syms = list(cls.symbols.values())
         eqs = list(cls.equations)
     except Exception as e:  # outcome, not a harness failure
         return {"raised": type(e).__name__, "msg": str(e)[:300]}
+    try:
+        shapes = {s.name: symbol_shape(s) for s in syms}
+    except NotLinear as ex:
+        return {"raised": None, "unreadable": str(ex), "symbols": [s.name for s in syms]}
+    symbols = [n for s in syms for n in element_names(s.name, shapes[s.name])]
+    flow_syms = [n for s in syms if "flow" in s.prefixes for n in element_names(s.name, shapes[s.name])]
     forms = []
     for e in eqs:
         try:
             if not isinstance(e, ast.Equation):
                 raise NotLinear("flat equation of class %s" % type(e).__name__)
-            forms.append(add(lin(e.left), lin(e.right), -1))
+            forms += expand_form(add(lin(e.left), lin(e.right), -1), shapes)
         except NotLinear as ex:
             return {"raised": None, "unreadable": str(ex), "symbols": symbols}
     return {"raised": None, "forms": forms, "symbols": symbols, "flow_syms": flow_syms}
@@ -354,6 +459,24 @@ def check_case(ctx, case, drv, count=True):
         used_types = set(e["ctype"] for e in inst.edges)
         if len(set(simple)) < len(simple):
             ctx.count("same-simple-name-connector-classes" + ("-both-connected" if len(used_types) > 1 else ""))
+        arrs = [G.dims_of(d) for m in case["models"] for d in m["decl"] if G.dims_of(d)]
+        if arrs:
+            for a in arrs:
+                ctx.count("array-of-components-%dD" % len(a))
+            # connected elements of one array that agree in their first subscript but differ in a later one
+            def row(c):
+                h = c.split(SEP)[0]
+                return (G.base(h), h[len(G.base(h)) + 1:-1].split(",")) if "[" in h else None
+            rows_sets = {}
+            for si, st in enumerate(sets):
+                for c, _inner in st:
+                    rw = row(c)
+                    if rw and len(rw[1]) >= 2:
+                        rows_sets.setdefault((rw[0], rw[1][0], c.split(SEP, 1)[1]), set()).add((si, tuple(rw[1])))
+            if any(len(set(x[1] for x in v)) >= 2 for v in rows_sets.values()):
+                ctx.count("array-connected-elements-share-first-subscript")
+            if any(len(set(x[0] for x in v)) >= 2 for v in rows_sets.values()):
+                ctx.count("array-connected-elements-share-first-subscript-in-distinct-sets")
         conn_touched = set(c for c, _i in G.touched_faces(inst))
         if any(b != a and b.startswith(a) for a in conn_touched for b, _t, _top in inst.conns if b not in conn_touched):
             ctx.count("unconnected-connector-name-extends-a-connected-one")
@@ -414,11 +537,14 @@ def check_case(ctx, case, drv, count=True):
         if tags == {"nested-outside-only"}:
             what = ("flow of a nested connector that is connected only as an outside connector inside its own class "
                     "(its inside face is in no connection) is not set to zero")
+        elif tags == {"unconnected-element-of-partly-connected-array"}:
+            what = ("flow of an unconnected element of an array of components is not set to zero when the same connector of "
+                    "another element of the array occurs in a connect clause")
         elif p0[0] == "potential":
             what = "potential variables of one connection set are not forced equal"
         elif p0[0] == "flow-sum":
             what = "the flow sum of a connection set (inside positive, outside negative) is not implied by the flat equations"
-        elif p0[0] == "unconnected":
+        elif p0[0] in ("unconnected", "unconnected-element-of-partly-connected-array"):
             what = "a flow variable that appears in no connection is not zero"
         elif p0[0] == "nested-outside-only":
             what = "flow of a nested connector connected only as outside connector is not zero (together with other defects)"
@@ -429,8 +555,10 @@ def check_case(ctx, case, drv, count=True):
         ctx.violation(what, cs, expected=[list(map(str, p)) for p in problems[:6]],
                       observed=[show(f) for f in forms], kind="input")
 
-    # (C) correspondence with the Lean model
-    if drv is not None:
+    # (C) correspondence with the Lean model.  Not for the stream `array-open`: the model keeps one entry per
+    # array element on the list of unconnected flows, the code one entry per array symbol (finding C09-F2),
+    # so the tie would only repeat the known finding.
+    if drv is not None and case.get("stream") != "array-open":
         ans = drv.ask(model_request(case, inst, pop_policy(ctx)))
         if not ans.get("ok"):
             from harness.common import HarnessError
@@ -502,13 +630,34 @@ def run(ctx):
         check_case(ctx, G.gen_case(ctx.rng, stream), drv)
         done += 1
     ctx.extra["generated_graphs"] = done
+    # arrays of components with one, two or three dimensions, literal subscripts in the connect clauses.
+    # Drawn after the graphs above so that those are the same cases as before for a given seed.
+    na = 70 if quick else 1500
+    done = 0
+    for i in range(na):
+        if ctx.time_left() < 0:
+            ctx.notes.append("arrays of components stopped by the time budget after %d of %d" % (i, na))
+            break
+        check_case(ctx, G.gen_array_case(ctx.rng, "array"), drv)
+        done += 1
+    ctx.extra["generated_array_cases"] = done
+    # arrays of components connected in some elements only: the class of the open finding C09-F2
+    # (unconnected elements get no `flow = 0`), own stream, direct oracle only
+    for _ in range(4 if quick else 40):
+        if ctx.time_left() < 0:
+            break
+        check_case(ctx, G.gen_array_case(ctx.rng, "array-open"), drv)
     ctx.extra["run_s"] = round(45.0 - ctx.time_left() if quick else 600.0 - ctx.time_left(), 1)
 
 
 def search(ctx):
     """Tie broken without an oracle failure: spend the remaining time on the direct oracle alone."""
     while ctx.time_left() > 0 and not ctx.violations:
-        stream = "flat" if ctx.rng.random() < 0.6 else "hier"
+        r = ctx.rng.random()
+        if r < 0.3:
+            check_case(ctx, G.gen_array_case(ctx.rng, "array"), None, count=False)
+            continue
+        stream = "flat" if r < 0.72 else "hier"
         check_case(ctx, G.gen_case(ctx.rng, stream), None, count=False)
 
 
